@@ -88,6 +88,29 @@ def grow_scripts(env, rng, count, dirty=0, big=False):
         ops += ["iter $s", "find $s %s" % hx("NEW0.X"), "find $s %s" % hx("NEW3.X")]
         env.add_script("grow%03d" % j, path, (1, 4, 4), ops, 5000, (), meta)
 
+_PAR_SCRIPTS = []
+_PAR_FN = None
+def _par_call(i):
+    try:
+        return _PAR_FN(_PAR_SCRIPTS[i])
+    except Exception as e:      # an oracle crash must not hide as "no problem"
+        import traceback
+        return ("oracle-crash", traceback.format_exc())
+
+def par_oracle(scripts, fn):
+    """fn(sc) for every script, in parallel worker processes (fork; results in order)"""
+    global _PAR_SCRIPTS, _PAR_FN
+    import multiprocessing
+    _PAR_SCRIPTS, _PAR_FN = list(scripts), fn
+    if len(_PAR_SCRIPTS) < 8:
+        return [_par_call(i) for i in range(len(_PAR_SCRIPTS))]
+    with multiprocessing.get_context("fork").Pool(V.NPROC) as pool:
+        res = pool.map(_par_call, range(len(_PAR_SCRIPTS)), chunksize=2)
+    for r in res:
+        if isinstance(r, tuple) and r and r[0] == "oracle-crash":
+            raise RuntimeError("oracle crashed: " + r[1])
+    return res
+
 def tier_n(run, quick, thorough):
     return thorough if run.tier == "thorough" else quick
 
@@ -765,96 +788,94 @@ def check_C08(run, replay=None):
     return finish(run, env, "C08", "open/close histories over 14 limit configurations (1..8 of each kind), stale handles after every close, raw never-issued handles, limit overruns, every result-returning method issued re-entrantly from inside a directory-iteration callback; oracle = handle bookkeeping (distinctness, BadHandle + no device traffic for stale handles, too-many errors, truthful open-handle query, LockError without effect)")
 
 def c08_oracle(sc):
+    """handle bookkeeping by handle VALUE (a raw `#n` token may name a live handle)"""
     tr = O.Trace(sc)
     out = []
-    live = {"v": {}, "d": {}, "f": {}}    # slot -> handle
-    vol_idx = {}
+    live = {"v": set(), "d": set(), "f": set()}    # handle values
+    vol_idx = {}                                    # volume handle -> partition index
     lim = sc["limits"]
-    dir_vol, file_vol = {}, {}
+    dir_vol, file_vol = {}, {}                      # dir/file handle -> volume handle value it refers to
     for k, op in enumerate(tr.ops):
         r = tr.res[k]
         if r is None:
             break
         okk = r[0] == "ok"; e = tr.err(k); bind = tr.binds[k]
-        allh = {h for t in live.values() for h in t.values()}
+        allh = live["v"] | live["d"] | live["f"]
         kind = op[0]
+        arg = tr.handle(op[1]) if len(op) > 1 and (op[1].startswith("$") or op[1].startswith("#")) else None
+        newh = None
         if okk and len(r) > 2 and r[1] == "handle":
-            h = int(r[2])
-            if h in allh:
-                out.append("op %d: returned handle %d is already open" % (k, h))
+            newh = int(r[2])
+            if newh in allh:
+                out.append("op %d: returned handle %d is already open" % (k, newh))
             if bind:
-                tr.slots[bind] = h
-        def is_live(tbl, tok):
-            return tok in live[tbl]
+                tr.slots[bind] = newh
         if kind == "openvol":
             idx = int(op[1])
             if okk:
                 if len(live["v"]) >= lim[0]: out.append("op %d: volume opened beyond the limit %d" % (k, lim[0]))
                 if idx in vol_idx.values(): out.append("op %d: partition %d opened twice" % (k, idx))
-                if bind: live["v"][bind] = int(r[2]); vol_idx[bind] = idx
+                live["v"].add(newh); vol_idx[newh] = idx
             elif len(live["v"]) >= lim[0] and e != "TooManyOpenVolumes":
                 out.append("op %d: open_volume at the limit returned %s" % (k, e))
             elif len(live["v"]) < lim[0] and idx in vol_idx.values() and e != "VolumeAlreadyOpen":
                 out.append("op %d: second open of partition %d returned %s" % (k, idx, e))
         elif kind == "closevol":
-            if is_live("v", op[1]):
-                h = live["v"][op[1]]
-                inuse = any(v == op[1] for v in dir_vol.values()) or any(v == op[1] for v in file_vol.values())
+            inuse = any(v == arg for v in dir_vol.values()) or any(v == arg for v in file_vol.values())
+            if arg in live["v"]:
                 if inuse and e != "VolumeStillInUse": out.append("op %d: close_volume while in use returned %s" % (k, r[:2]))
                 if not inuse and not okk: out.append("op %d: close_volume of an idle volume returned %s" % (k, e))
-                if okk: del live["v"][op[1]]; vol_idx.pop(op[1], None)
-            elif e != "BadHandle" or tr.dev[k]:
-                # a stale volume handle whose number is still referenced by an (erroneously accepted) directory is 'in use'
-                if not (e == "VolumeStillInUse" and any(v == op[1] for v in dir_vol.values())):
-                    out.append("op %d: close_volume on a stale handle returned %s (device calls %d)" % (k, r[:2], len(tr.dev[k])))
+                if okk: live["v"].discard(arg); vol_idx.pop(arg, None)
+            elif not (e == "BadHandle" and not tr.dev[k]) and not (e == "VolumeStillInUse" and inuse):
+                out.append("op %d: close_volume on a stale handle returned %s (device calls %d)" % (k, r[:2], len(tr.dev[k])))
         elif kind == "openroot":
             if okk:
                 if len(live["d"]) >= lim[1]: out.append("op %d: directory opened beyond the limit %d" % (k, lim[1]))
-                if not is_live("v", op[1]):
+                if arg not in live["v"]:
                     out.append("op %d: open_root_dir accepted a volume handle that is not open" % k)
-                if bind: live["d"][bind] = int(r[2]); dir_vol[bind] = op[1]
-            elif is_live("v", op[1]) and len(live["d"]) >= lim[1] and e != "TooManyOpenDirs":
+                live["d"].add(newh); dir_vol[newh] = arg
+            elif arg in live["v"] and len(live["d"]) >= lim[1] and e != "TooManyOpenDirs":
                 out.append("op %d: open_root_dir at the limit returned %s" % (k, e))
-            elif is_live("v", op[1]) and len(live["d"]) < lim[1]:
+            elif arg in live["v"] and len(live["d"]) < lim[1]:
                 out.append("op %d: open_root_dir below the limit returned %s" % (k, e))
         elif kind == "opendir":
             if okk:
                 if len(live["d"]) >= lim[1]: out.append("op %d: directory opened beyond the limit %d" % (k, lim[1]))
-                if bind: live["d"][bind] = int(r[2]); dir_vol[bind] = dir_vol.get(op[1])
+                live["d"].add(newh); dir_vol[newh] = dir_vol.get(arg)
             elif len(live["d"]) >= lim[1] and e != "TooManyOpenDirs":
                 out.append("op %d: open_dir at the limit returned %s" % (k, e))
-            elif not is_live("d", op[1]) and len(live["d"]) < lim[1] and (e != "BadHandle" or tr.dev[k]):
+            elif arg not in live["d"] and len(live["d"]) < lim[1] and (e != "BadHandle" or tr.dev[k]):
                 out.append("op %d: open_dir on a stale handle returned %s (device calls %d)" % (k, e, len(tr.dev[k])))
         elif kind == "closedir":
-            if is_live("d", op[1]):
+            if arg in live["d"]:
                 if not okk: out.append("op %d: close_dir of an open directory returned %s" % (k, e))
-                else: del live["d"][op[1]]; dir_vol.pop(op[1], None)
+                else: live["d"].discard(arg); dir_vol.pop(arg, None)
             elif e != "BadHandle":
                 out.append("op %d: close_dir on a stale handle returned %s" % (k, r[:2]))
         elif kind == "open":
             if okk:
                 if len(live["f"]) >= lim[2]: out.append("op %d: file opened beyond the limit %d" % (k, lim[2]))
-                if bind: live["f"][bind] = int(r[2]); file_vol[bind] = dir_vol.get(op[1])
+                live["f"].add(newh); file_vol[newh] = dir_vol.get(arg)
             elif len(live["f"]) >= lim[2] and e != "TooManyOpenFiles":
                 out.append("op %d: open_file at the limit returned %s" % (k, e))
-            elif not is_live("d", op[1]) and len(live["f"]) < lim[2] and (e != "BadHandle" or tr.dev[k]):
+            elif arg not in live["d"] and len(live["f"]) < lim[2] and (e != "BadHandle" or tr.dev[k]):
                 out.append("op %d: open_file_in_dir on a stale directory handle returned %s (device calls %d)" % (k, e, len(tr.dev[k])))
         elif kind == "close":
-            if is_live("f", op[1]):
+            if arg in live["f"]:
                 if okk or e not in ("LockError",):
-                    del live["f"][op[1]]; file_vol.pop(op[1], None)
+                    live["f"].discard(arg); file_vol.pop(arg, None)
             elif e != "BadHandle" or tr.dev[k]:
                 out.append("op %d: close_file on a stale handle returned %s" % (k, r[:2]))
         elif kind in ("flush", "read", "write", "len", "off", "eof", "seekstart", "seekend", "seekcur"):
-            if not is_live("f", op[1]) and (e != "BadHandle" or tr.dev[k]):
+            if arg not in live["f"] and (e != "BadHandle" or tr.dev[k]):
                 out.append("op %d: %s on a stale file handle returned %s (device calls %d)" % (k, kind, r[:2], len(tr.dev[k])))
         elif kind in ("find", "delete", "mkdir") or (kind == "iter" and len(op) == 2):
-            if not is_live("d", op[1]):
+            if arg not in live["d"]:
                 full = kind == "mkdir" and len(live["d"]) >= lim[1]
                 if not full and (e != "BadHandle" or tr.dev[k]):
                     out.append("op %d: %s on a stale directory handle returned %s (device calls %d)" % (k, kind, r[:2], len(tr.dev[k])))
         elif kind == "label":
-            if not is_live("v", op[1]) and (e != "BadHandle" or tr.dev[k]):
+            if arg not in live["v"] and (e != "BadHandle" or tr.dev[k]):
                 out.append("op %d: label on a stale volume handle returned %s" % (k, r[:2]))
         elif kind == "hasopen" and okk:
             want = 1 if (live["d"] or live["f"]) else 0
@@ -867,7 +888,7 @@ def c08_oracle(sc):
             i = r.index("inner")
             inner = r[i + 1:]
             inner_op = op[3:]
-            if inner_op and inner_op[0] not in ("ioread", "iowrite", "hasopen"):
+            if inner_op and inner_op[0] not in ("ioread", "iowrite", "hasopen", "ioseek"):
                 if inner[:2] != ["err", "LockError"]:
                     out.append("op %d: %s issued from inside the iteration callback returned %s, expected LockError" % (k, " ".join(inner_op[:2]), inner[:3]))
         if len(out) > 5:
@@ -900,36 +921,32 @@ def check_C09(run, replay=None):
     env.run_all(writes=True)
     bad = 0
     npoints = 0
-    for sc in env.scripts:
-        if bad >= 2:
-            break
-        tr = O.Trace(sc)
-        probs, sp = O.run_spec(tr, sc["meta"]["dev0"], sc["meta"]["slot"], checks=())
-        if sp is None:
-            continue
-        g = fatck.mount(sc["meta"]["dev0"], sc["meta"]["slot"])
-        # replay the spec incrementally to know, at each op, which files are durable
-        out = []
-        durable = {}     # path -> (bytes, since op)
-        tr2 = O.Trace(sc)
-        timeline = durable_timeline(tr2, sc)
-        for k, j, dev in prefix_images(tr, sc["meta"]["dev0"]):
-            for path, (data, since) in timeline.get(k, {}).items():
-                if since >= k:
-                    continue
-                npoints += 1
-                e = O.lookup(dev, g, path)
-                if e is None or e.size < len(data) or (e.data or b"")[:len(data)] != data:
-                    out.append("power cut after write %d of op %d (%s): %s flushed at op %d with %d bytes now reads %s"
-                               % (j, k, " ".join(tr.ops[k][:3]), path, since, len(data), "missing" if e is None else "%d bytes%s" % (e.size, "" if e.size < len(data) else " with different contents")))
-                    break
-            if out:
-                break
-        if out:
+    for sc, (out, npts) in zip(env.scripts, par_oracle(env.scripts, c09_one)):
+        npoints += npts
+        if out and bad < 2:
             bad += report_oracle(run, env, sc, out, "flushed data lost by a later power cut")
     run.coverage["crash_points_checked"] = npoints
     common_tail(run, env, run.coverage.get("theorems", []))
     return finish(run, env, "C09", "every prefix of the implementation's block-write sequence after each successful flush/close, over histories of later creates/extends/truncates/deletes/mkdirs/volume close; oracle = independent reader looks the flushed file up on each prefix medium: size >= flushed length and identical leading bytes until the file itself is next modified")
+
+def c09_one(sc):
+    tr = O.Trace(sc)
+    g = fatck.mount(sc["meta"]["dev0"], sc["meta"]["slot"])
+    out, npoints = [], 0
+    if g is None:
+        return out, 0
+    timeline = durable_timeline(O.Trace(sc), sc)
+    for k, j, dev in prefix_images(tr, sc["meta"]["dev0"]):
+        for path, (data, since) in timeline.get(k, {}).items():
+            if since >= k:
+                continue
+            npoints += 1
+            e = O.lookup(dev, g, path)
+            if e is None or e.size < len(data) or (e.data or b"")[:len(data)] != data:
+                out.append("power cut after write %d of op %d (%s): %s flushed at op %d with %d bytes now reads %s"
+                           % (j, k, " ".join(tr.ops[k][:3]), path, since, len(data), "missing" if e is None else "%d bytes%s" % (e.size, "" if e.size < len(data) else " with different contents")))
+                return out, npoints
+    return out, npoints
 
 def durable_timeline(tr, sc):
     """{op k: {path: (bytes, since)}} = files whose flushed contents must survive a cut during op k
@@ -950,6 +967,20 @@ def durable_timeline(tr, sc):
         before = after
     return timeline
 
+def c10_one(sc):
+    tr = O.Trace(sc)
+    g = fatck.mount(sc["meta"]["dev0"], sc["meta"]["slot"])
+    out, npoints = [], 0
+    if g is None:
+        return out, 0
+    for k, j, dev in prefix_images(tr, sc["meta"]["dev0"]):
+        npoints += 1
+        probs = fatck.crash_ck(dev, g)
+        if probs:
+            out.append("power cut after write %d of op %d (%s): %s" % (j, k, " ".join(tr.ops[k][:3]), probs[0]))
+            break
+    return out, npoints
+
 def check_C10(run, replay=None):
     env = F.Env(run, "C10.v")
     if not env.ok:
@@ -966,19 +997,9 @@ def check_C10(run, replay=None):
     env.run_all(writes=True)
     bad = 0
     npoints = 0
-    for sc in env.scripts:
-        if bad >= 2:
-            break
-        tr = O.Trace(sc)
-        g = fatck.mount(sc["meta"]["dev0"], sc["meta"]["slot"])
-        out = []
-        for k, j, dev in prefix_images(tr, sc["meta"]["dev0"]):
-            npoints += 1
-            probs = fatck.crash_ck(dev, g)
-            if probs:
-                out.append("power cut after write %d of op %d (%s): %s" % (j, k, " ".join(tr.ops[k][:3]), probs[0]))
-                break
-        if out:
+    for sc, (out, npts) in zip(env.scripts, par_oracle(env.scripts, c10_one)):
+        npoints += npts
+        if out and bad < 2:
             bad += report_oracle(run, env, sc, out, "a power cut leaves corruption, not just lost clusters")
     run.coverage["crash_points_checked"] = npoints
     common_tail(run, env, run.coverage.get("theorems", []))
